@@ -9,7 +9,7 @@ T = "harness.orch_rel:c14"
 
 
 def case_of(params, model):
-    return dict(K=max(params.get("K", 3), 3), k=params.get("k", 2), maxcor=params.get("maxcor", 2), rewrite=params.get("rewrite_at") is not None)
+    return dict(K=max(params.get("K", 3), 3), k=params.get("k", 2), maxcor=params.get("maxcor", 2), rewrite=params.get("rewrite_at") is not None, unbounded=bool(params.get("pattern")))
 
 
 def main(tier, seed):
@@ -23,6 +23,9 @@ def main(tier, seed):
     jobs.append((T, dict(K=1, ls_mode="unit", mode="repeat", jac="2-point")))
     for ipr in (0, 1, 99, 101):
         jobs.append((T, dict(K=2, ls_mode="unit", mode="logging", iprint=ipr)))
+    # inputs untouched / read-only inputs accepted also without finite bounds (the projection is the identity there)
+    jobs.append((T, dict(K=2, ls_mode="unit", mode="inputs", pattern=("ii",))))
+    jobs.append((T, dict(K=2, ls_mode="unit", mode="inputs", pattern=("fi",))))
     # logging on/off while update_fun_def rewrites the stored gradients (the history filter logs what it drops)
     jobs.append((T, dict(K=3, ls_mode="unit", mode="logging", iprint=0, rewrite_at=2, maxcor=2)))
     if tier != "quick":
